@@ -118,12 +118,15 @@ def main():
         perm = [canon[k] for k in keys]       # library index -> reference index
         M = len(tab)
         inv = {v: k for k, v in enumerate(perm)}
-        rq = random.Random(hash(m["id"]) & 0xffff)
+        import zlib
+        rq = random.Random(zlib.crc32(m["id"].encode()) & 0xffff)
         quads_ref = [[rq.randrange(M) for _ in range(4)] for _ in range(5)]
+        if M >= 2:      # both pairs distinct, in both orders: stored component or doubly swapped alias, depending on labels / ordering mode
+            quads_ref += [[0, M - 1, 0, M - 1], [M - 1, 0, M - 1, 0], [1, 0, 0, 1]]
         sus_ref = [[rq.randrange(M) for _ in range(4)] for _ in range(3)]
         s = dict(mv)
         s["id"] = sid
-        s["queries"] = obs.queries(M, beta, [[inv[x] for x in q] for q in quads_ref], [[inv[x] for x in q] for q in sus_ref], tri)
+        s["queries"] = obs.queries(M, beta, [[inv[x] for x in q] for q in quads_ref], [[inv[x] for x in q] for q in sus_ref], tri, container=True)
         sc3.append(s)
         meta[sid] = (m, vn, perm, s)
     recs, crashed = pv.run_driver_resilient(exe, sc3, timeout=3000)
